@@ -32,7 +32,7 @@ EXPLANATION = (
     '(S4) all input arrays are read-only in the harness, any write is an exception path.')
 BOUNDS = {
     'quick': 'STFT (L,S) in {(4,2),(5,2),(5,3),(6,3),(4,4),(5,5)} x 3 styles, histories N<=L+S+1 with 2 cuts, utterances N<=2L+S with 2 cuts; '
-             'SI S=2, M in {3,4}, D in {6,8}, utterances N<=8 with 2 cuts; alternating dtypes: float32 utterance (N<=L+S+1) then float64 utterance in 2 chunks (and the reverse), (L,S) in {(4,2),(5,3)} x 3 styles, and on short-integration computers (D <= 6, N <= 3)',
+             'SI S=2, M in {3,4}, D in {6,8}, utterances N<=8 with 2 cuts; alternating dtypes: float32 utterance (N<=L+S+1) then float64 utterance in 2 chunks (and the reverse), (L,S) in {(4,2),(5,3)} x 3 styles, and on short-integration computers (D <= 6, N <= 3); refused mid-utterance calls: any buffered length < L, either sample type of the utterance in progress against a float64 signal of any length <= 3L',
     'thorough': 'STFT L<=8 grid, utterances N<=3L with 3 cuts; SI additionally S=3, D=9',
 }
 OUTSIDE = ['floating point: bit-identity is claimed as identity of the symbolic result terms (same operations on the same operands)',
